@@ -3,6 +3,7 @@
 //! usage: vharness <family> --model <rfsm_model> --out <report.json> [--tier quick|thorough]
 //!                 [--seed N] [--replay file]
 mod c19;
+mod content;
 mod dump;
 mod gen_doc;
 mod int;
@@ -83,7 +84,7 @@ fn main() {
         let prop = args.extra.first().cloned().unwrap_or("C01".to_string());
         let idx: u64 = args.extra.get(1).and_then(|s| s.parse().ok()).unwrap_or(0);
         let (c, _) = int::gen_case(&prop, args.seed, idx);
-        println!("{}", serde_json::json!({"xml": c.xml, "events": c.events, "single": c.single}));
+        println!("{}", serde_json::json!({"xml": c.xml, "events": c.events, "single": c.single, "child": c.child}));
         return;
     }
     let mut model = proto::Model::spawn(&args.model);
@@ -94,6 +95,12 @@ fn main() {
         "c03" => int::run(&args, &mut model, "C03"),
         "c06" => int::run(&args, &mut model, "C06"),
         "c07" => int::run(&args, &mut model, "C07"),
+        "c08" => {
+            // vdm-driven trace correspondence of executable_content.rs, then the real data models
+            let mut r = int::run(&args, &mut model, "C08");
+            content::run_real(&args, &mut r);
+            r
+        }
         "c20" => http::run(&args, &mut model),
         "c16" => timer::run(&args, &mut model),
         "c17" => locks::run(&args, &mut model),
